@@ -5,6 +5,7 @@ From Common Require Import Bytes Outcome.
 From Gen Require Import Consts.
 From C03 Require Import Model.
 From C18B Require Import Model Spec Proofs_Tight Proofs_Inv Proofs_Cover Proofs_Trunc Proofs_Sites Proofs_Props Props.
+From C18B Require Import Bulk Proofs_Bulk.
 Import ListNotations.
 Local Open Scope N_scope.
 
@@ -211,3 +212,25 @@ Qed.
 Example ex_sparse :
   M_sfnt_read_at ex_D (sparse_at (firstn 60 ex_file) 80) = M_sfnt_read_at ex_D (plain_at ex_file).
 Proof. vm_compute. reflexivity. Qed.
+
+(* bulk_read_error_propagates: a request of 2500 bytes with 1024-byte chunks whose last
+   ReadBytes call fails: error, 2048 bytes reported, three calls, none after the failure;
+   the recorded ReadBytes obeys the contract *)
+Example ex_bulk :
+  rb_ok rb_recorded /\
+  (let r := M_bulk_read 1024 rb_recorded [false; false; true] 2500 in
+   (br_total r, br_err r, br_calls r)) = (2048, true, [(1024, false); (1024, false); (452, true)]) /\
+  (let r := M_bulk_read 1024 rb_recorded [true] 10 in (br_total r, br_err r)) = (0, true) /\
+  (let r := M_bulk_read 1024 rb_recorded [] 2500 in (br_total r, br_err r)) = (2500, false).
+Proof. split; [apply rb_recorded_ok|]. splits; vm_compute; reflexivity. Qed.
+
+(* the loop without "k = copy(buf, tmp)" (seed C18-h): when the failing call is the last
+   or only one the error is lost and the full length is reported; an earlier failure is
+   still reported - but with the bytes of the failed chunk counted *)
+Example bulk_drop_k_refuted :
+  (let r := M_bulk_loop_dropk 1024 rb_recorded 4000 [false; false; true] 2500 0 [] in
+   (br_total r, br_err r)) = (2500, false) /\
+  (let r := M_bulk_loop_dropk 1024 rb_recorded 4000 [true] 10 0 [] in (br_total r, br_err r)) = (10, false) /\
+  (let r := M_bulk_loop_dropk 1024 rb_recorded 4000 [false; true; false] 2500 0 [] in
+   (br_total r, br_err r)) = (2048, true).
+Proof. splits; vm_compute; reflexivity. Qed.
